@@ -335,7 +335,7 @@ func (w *vfC15World) drain(t vfC15TB) {
 	for {
 		select {
 		case params := <-w.d.filtersInitializerChan:
-			if err := w.d.initFiltering(params.allowFilters, params.blockFilters); err != nil {
+			if err := w.d.initFilteringGen(params.gen, params.allowFilters, params.blockFilters); err != nil {
 				t.Fatalf("rebuilding the engines: %v", err)
 			}
 		default:
